@@ -273,3 +273,18 @@ def r8(ctx):
     from .c15 import r1 as loss_table
     loss_table(ctx)
 
+
+@rule("R-C16-9", min_instances=1, title="the timeout check can always run: with a ping timeout configured, no transport read made from the loop's read callback may block without bound (a peer that falls silent in the middle of a frame must still be reported)")
+def r9(ctx):
+    from .c13 import setsock_paths
+    I, outs = setsock_paths(ctx, False, False, ping_interval=30, app_fields=lambda run: dict(ping_timeout=C(10)))
+    loc = ctx.index.loc(ctx.index.func(f"{RF}.setSock").node)
+    st = [e for o in outs for e in o.effects if e.name == "appsock.settimeout"]
+    if not st:
+        raise AnalysisError("setSock never configures the transport timeout")
+    unbounded = [e for e in st if I.resolve(outs[0].run, e.args[0]) == NONE]
+    ctx.ob(f"{RF}.setSock:reads-bounded-when-ping-timeout-set", not unbounded, "the transport timeout is finite when a ping timeout is configured" if not unbounded else
+           "with ping_timeout set the transport is given the process default timeout (None unless setdefaulttimeout was called): once the dispatcher has seen one readable "
+           "byte, recv_data_frame blocks inside recv until the whole frame (or message) has arrived -- a peer that sends part of a frame (or a non-final fragment) and then "
+           "falls silent is never reported, check() never runs again and run_forever never returns", unbounded[0].loc if unbounded else loc)
+
